@@ -14,6 +14,13 @@ _MV = "__mv_"
 _cache = {}
 
 
+class Bindings(dict):
+    """a successful match (truthy even when no metavariable was bound)."""
+
+    def __bool__(self):
+        return True
+
+
 def _compile(pattern):
     if pattern in _cache:
         return _cache[pattern]
@@ -78,7 +85,7 @@ def match(pattern, node, env=None):
     p = _compile(pattern)
     if isinstance(node, ast.Expr) and not isinstance(p, ast.stmt):
         node = node.value
-    e = dict(env or {})
+    e = Bindings(env or {})
     return e if _match(p, node, e) else None
 
 
@@ -88,7 +95,7 @@ def search(pattern, root, env=None):
     out = []
     for n in walk_noscope(root):
         if type(n) is type(p) or (isinstance(p, ast.Name) and p.id.startswith(_MV)):
-            e = dict(env or {})
+            e = Bindings(env or {})
             if _match(p, n, e):
                 out.append((n, e))
     return out
